@@ -19,7 +19,7 @@ import z3
 
 from contracts.py import fjm_writer as CW
 from contracts.py import fjm_reader as CR
-from vc.common import Obl, Report, Undecided, Violation, discharge, main_wrapper, run_units
+from vc.common import Obl, Report, Undecided, Violation, discharge, finish_unit, main_wrapper, run_and_discharge, serialize
 from vc.pyvc.engine import OK, RAISE, Engine, LoopSpec, State
 from vc.pyvc.values import ExcVal, IntMath, Obj, Opaque, Ref, SList
 
@@ -27,8 +27,8 @@ PROP = 'C06'
 WIDTHS = (8, 16, 32, 64)
 
 
-def _finish(eng: Engine, extra: List[Obl]) -> List[Dict[str, Any]]:
-    return [dict(r=discharge(o), dropped=list(eng.dropped)) for o in eng.obligations + extra]
+def _finish(eng: Engine, extra: List[Obl]) -> Dict[str, Any]:
+    return finish_unit(eng, extra)
 
 
 def _versions():
@@ -59,7 +59,7 @@ def unit_is_collision() -> List[Dict[str, Any]]:
         extra.append(Obl(f'{tag}.never_raises', list(s.pc), z3.BoolVal(sig[0] == 'return')))
         if sig[0] == 'return':
             r = sig[1] if isinstance(sig[1], z3.BoolRef) else z3.BoolVal(bool(sig[1]))
-            extra.append(Obl(f'{tag}.result_iff_closed_intervals_intersect', list(s.pc), r == CW.is_collision_spec(*a), meta=dict(replay='is_collision'), extract=lambda ev, a=a: dict(args=[ev(x).as_long() for x in a])))
+            extra.append(Obl(f'{tag}.result_iff_closed_intervals_intersect', list(s.pc), r == CW.is_collision_spec(*a), meta=dict(replay='is_collision'), witness_consts=dict(args=[str(x) for x in a])))
     extra.append(Obl(f'{eng.name}:canary', list(st.pc), None, 'canary'))
     return _finish(eng, extra)
 
@@ -332,7 +332,7 @@ def unit_write_to_file(w: int, vi: int) -> List[Dict[str, Any]]:
 def unit_init() -> List[Dict[str, Any]]:
     W, C, X = CW.mods()
     res: List[Dict[str, Any]] = []
-    for version in list(C.FJMVersion) + ['not-a-version']:
+    for version in list(C.FJMVersion) + ['not-a-version']:  # each returns one unit record
         vname = version.value if version != 'not-a-version' else 'bad'
         eng = Engine(IntMath(), name=f'Writer.__init__[v{vname}]')
         st = State()
@@ -364,7 +364,7 @@ def unit_init() -> List[Dict[str, Any]]:
                 o = s.heap[ref.id]
                 segs, data = s.heap[o.fields['segments'].id], s.heap[o.fields['data'].id]
                 extra.append(Obl(f'{tag}.starts_empty', list(s.pc), z3.And(segs.length == 0, data.length == 0, eng.T.lift(o.fields['reserved']) == 0, eng.T.lift(o.fields['word_size']) == width, eng.T.lift(o.fields['flags']) == flags)))
-        res += _finish(eng, extra)
+        res.append(_finish(eng, extra))
     return res
 
 
@@ -416,9 +416,8 @@ def unit_lzma_dict() -> List[Dict[str, Any]]:
     for dw in (16, 32, 64, 128):
         for p in range(10):
             enc = dict_size(C._lzma_compression_filters(dw, p)[0])
-            o = Obl(f'lzma.decoder_dictionary_covers_encoder[dw{dw},preset{p}]', [], z3.BoolVal(dec >= enc), meta=dict(decoder=dec, encoder=enc))
-            res.append(dict(r=discharge(o), dropped=[]))
-    return res
+            res.append(Obl(f'lzma.decoder_dictionary_covers_encoder[dw{dw},preset{p}]', [], z3.BoolVal(dec >= enc), meta=dict(decoder=dec, encoder=enc)))
+    return dict(obligations=[serialize(o) for o in res], dropped=[])
 
 
 # ----------------------------------------------------------------------------- bounded stand-in
@@ -557,20 +556,8 @@ def body(tier: str, seed: int) -> int:
     jobs += [(unit_write_to_file, (w, vi)) for w in WIDTHS for vi in range(4)]
     jobs += [(unit_reader_init_memory, (w, vi)) for w in WIDTHS for vi in range(4)]
     jobs += [(unit_roundtrip_lemma, (w, vi)) for w in WIDTHS for vi in range(4)]
-    for (fn, args), (status, val) in zip(jobs, run_units(jobs)):
-        if status == 'ok':
-            rep.add_results([d['r'] for d in val])
-            for d in val:
-                _replay(rep, d['r'], W)
-            for d in val:
-                for x in d['dropped']:
-                    if x not in rep.dropped:
-                        rep.dropped.append(x)
-        elif status == 'undecided':
-            rep.undecide(f'obligation={fn.__name__}{args} reason={val}')
-        else:
-            print(val)
-            rep.undecide(f'obligation={fn.__name__}{args} reason=checker-crash')
+    for r in run_and_discharge(rep, jobs):
+        _replay(rep, r, W)
     for m in ('__init__', '_is_collision', '_validate_segment_addresses_not_overlapping', '_validate_segment_data_not_overlapping', '_validate_segment_not_overlapping', '_update_to_relative_jumps', 'add_segment', 'add_data', 'write_to_file'):
         rep.add_function('flipjump.fjm.fjm_writer', f'Writer.{m}', Engine.func_lines(getattr(W.Writer, m)), 'w in {8,16,32,64} x version in {0,1,2,3} where the code depends on them')
     rep.add_function('flipjump.fjm.fjm_reader', 'Reader._init_memory', Engine.func_lines(R.Reader._init_memory), '4 widths x 4 versions')
